@@ -148,6 +148,8 @@ MUTANTS = [
      "            obj, prm = obj.iloc[:-1].align(prm.iloc[:-1], axis=0) if len(obj) > 7 else obj.align(prm, axis=0)\n\n            if len(droplevel) > 0:"),
     ("c13-revert-make-k-float", "C13", "pylife/materiallaws/woehlercurve.py",
      "        k = np.asarray(wc.k_1, dtype=np.float64).copy()", "        k = np.asarray(wc.k_1).copy()"),
+    ("c13-scalar-returns-none", "C13", "pylife/core/broadcaster.py",
+     "        if prm.shape == ():\n            return prm, self._obj", "        if prm.shape == ():\n            return prm, None"),
     ("c13-wc-k-below-limit", "C13", "pylife/materiallaws/woehlercurve.py",
      "        below_limit = np.asarray(src < ref)", "        below_limit = np.asarray(src <= ref)"),
 ]
